@@ -52,7 +52,12 @@ def normalise(fmt, data: bytes):
 
 
 def make_writer(scn, pps, args):
-    kw = {"decimal_precision": args["prec"], "file_format": FMT[args["fmt"]]}
+    prec = args["prec"]
+    if args.get("prec_form") == "np":
+        import numpy as np
+
+        prec = np.int64(prec)  # precisions often come out of numpy / config arrays
+    kw = {"decimal_precision": prec, "file_format": FMT[args["fmt"]]}
     meta = args.get("meta") or {}
     if "author" in meta:
         kw["author"] = meta["author"]
@@ -174,6 +179,8 @@ class Run(RunBase):
     def _op_construct(self, op):
         scn, pps = self.scn[op["scn"]]
         args = {"fmt": op["fmt"], "prec": op["prec"], "meta": op.get("meta")}
+        if op.get("prec_form") == "np":
+            args["prec_form"] = "np"
         w = make_writer(scn, pps, args)
         for name, other in self.writers.items():
             if name != op["w"] and other["writes_pending"]:
@@ -449,7 +456,8 @@ def _writer_user(rng, run, name, cfg):
             meta = dict(meta or {}, location=[rng.randint(1, 9999), round(rng.uniform(-80, 80), 4),
                                               round(rng.uniform(-170, 170), 4)])
         prec = rng.pick(cfg["precisions"])
-        yield {"op": "construct", "w": w, "scn": rng.pick(scns), "fmt": fmt, "prec": prec, "meta": meta}
+        yield {"op": "construct", "w": w, "scn": rng.pick(scns), "fmt": fmt, "prec": prec, "meta": meta,
+               "prec_form": rng.choice(["int", "int", "np"])}
         for _ in range(rng.randint(1, 3)):
             op = {"op": "write", "w": w, "path": f"f{rng.randrange(cfg['n_paths'])}.{fmt}",
                   "mode": rng.weighted(["SKIP", "ALWAYS", "ASK"], [cfg["p_skip"], 1 - cfg["p_skip"], cfg.get("p_ask", 0.0)]),
